@@ -283,6 +283,34 @@ Proof.
     destruct (queue_progress file fails ranges workers (p_s ps) Hw Hq Hs). auto.
 Qed.
 
+(* when main has returned or raised: every range was put and taken and marked done, every worker was started, none holds a range *)
+Theorem prologue_quiet : forall ps, (1 <= workers)%nat -> pqreach ps -> main_done (p_s ps) = true ->
+  p_toput ps = [] /\ p_tostart ps = O /\ s_q (p_s ps) = [] /\ s_unf (p_s ps) = O /\ forallb w_idle (s_ws (p_s ps)) = true.
+Proof.
+  intros ps Hw Hr Hd. destruct (prologue_refines _ Hr) as [Hph Hq]. unfold main_done in Hd.
+  destruct Hph as [Htd Hst Hws|Htd Hst Htp|Hn Htp Hts]; try (rewrite Hst in Hd; discriminate).
+  rewrite (pabs_C _ Hn Htp Hts) in Hq.
+  destruct (queue_quiet file fails ranges workers (p_s ps) Hw Hq Hd) as (H1 & H2 & H3). auto.
+Qed.
+
+(* ... and all that can still happen is a worker finding the queue empty and leaving its loop: no put, no thread start, no
+   request, no result and no task_done after the call has returned or raised *)
+Theorem prologue_after_done : forall ps t ps', (1 <= workers)%nat -> pqreach ps -> main_done (p_s ps) = true ->
+  qpstep ps t = Some ps' ->
+  exists i, t = S i /\ ps' = mkP [] O (with_w (p_s ps) i WExit [] O (s_resq (p_s ps))).
+Proof.
+  intros ps t ps' Hw Hr Hd Hstep. destruct (prologue_quiet _ Hw Hr Hd) as (Htp & Hts & Hq & Hu & _).
+  destruct (prologue_refines _ Hr) as [Hph Hre]. pose proof Hd as Hd'. unfold main_done in Hd'.
+  destruct Hph as [Htd Hst Hws|Htd Hst Htp'|Hn _ _]; try (rewrite Hst in Hd'; discriminate).
+  rewrite (pabs_C _ Hn Htp Hts) in Hre.
+  destruct t as [|i]; cbn [pstep] in Hstep.
+  - rewrite pmstep_C in Hstep by exact Hn. unfold mstep in Hstep. destruct (s_status (p_s ps)); discriminate.
+  - exists i. split; auto.
+    destruct (wstep gen_worker_prog fails (p_s ps) i) as [s'|] eqn:Hws; [|discriminate].
+    destruct (queue_after_done file fails ranges workers (p_s ps) (S i) s' Hw Hre Hd Hws) as (j & Hj & Hs').
+    inversion Hj; subst j. cbn in Hstep. inversion Hstep. rewrite Htp, Hts, Hs', Hq, Hu. reflexivity.
+Qed.
+
 Theorem prologue_terminates : forall ps t ps', pqreach ps -> qpstep ps t = Some ps' ->
   (pmeasure gen_worker_prog ps' < pmeasure gen_worker_prog ps)%nat.
 Proof.
@@ -337,3 +365,75 @@ Proof.
   cbv zeta. split; [|split; vm_compute; reflexivity].
   intros [|[|i]]; vm_compute; reflexivity.
 Qed.
+
+(* ------------------------------------------------------------------------------------------------ successive queries of one reader *)
+Lemma fetch_site_direct : gen_fetch_site = FsDirect.
+Proof. reflexivity. Qed.
+
+(* the reader keeps nothing of a query: each query of a session yields exactly what ITS strategy run yields on ITS ranges,
+   whatever was asked before *)
+Theorem session_direct : forall m qs, reader_session gen_fetch_site m qs = map (fun q => snd q (fst q)) qs.
+Proof.
+  rewrite fetch_site_direct. intros m qs. revert m. induction qs as [|[rs f] t IH]; intro m; cbn; [reflexivity|].
+  f_equal. apply IH.
+Qed.
+
+Lemma first_failing_spec : forall fails ranges,
+  match first_failing fails ranges with
+  | None => existsb fails ranges = false
+  | Some r => In r ranges /\ fails r = true /\ existsb fails ranges = true
+  end.
+Proof.
+  intros fails ranges. induction ranges as [|r t IH]; cbn; auto.
+  destruct (fails r) eqn:E; cbn; auto.
+  destruct (first_failing fails t) as [r'|]; auto. destruct IH as (H1 & H2 & H3). auto.
+Qed.
+
+(* a complete run of either strategy on the ranges of a query yields what the query has to yield *)
+Theorem strategy_run_spec : forall file server ranges o,
+  StronglySorted (fun a b : range => fst a < fst b) ranges ->
+  strategy_run file server ranges o -> query_spec file server ranges o.
+Proof.
+  intros file server ranges o Hso Hrun. unfold query_spec.
+  destruct Hrun as [n ps Hn Hr Hd|n s o Hn Hr Hm].
+  - rewrite fetch_workers_id in Hr.
+    destruct (existsb (stream_fails gen_stream_read server) ranges) eqn:E.
+    + apply existsb_exists in E as (r0 & Hin0 & Hf0).
+      destruct (prologue_failure_raises file (stream_fails gen_stream_read server) ranges n ps Hn Hr Hd
+                  (ex_intro _ r0 (conj Hin0 Hf0))) as (r & Hst & Hin & Hf).
+      rewrite Hst. exists r. auto.
+    + destruct (prologue_equals_local file (stream_fails gen_stream_read server) ranges n ps Hn Hso) as [Hst Hb]; auto.
+      * intros r Hin. destruct (stream_fails gen_stream_read server r) eqn:Hf; auto.
+        assert (existsb (stream_fails gen_stream_read server) ranges = true) by (apply existsb_exists; eauto). congruence.
+      * rewrite Hst, Hb. reflexivity.
+  - pose proof (exec_http file server ranges n s o Hn Hr (or_intror Hm)) as Ho.
+    pose proof (first_failing_spec (stream_fails gen_stream_read server) ranges) as Hff.
+    destruct (first_failing (stream_fails gen_stream_read server) ranges) as [r|].
+    + destruct Hff as (Hin & Hf & He). rewrite He. exists r. auto.
+    + rewrite Hff. exact Ho.
+Qed.
+
+(* a session on one reader: whatever the earlier queries were, each query yields the local read of its own ranges or the
+   exception of one of its own failed requests *)
+Theorem session_each_query : forall file (qs : list squery),
+  Forall (fun q => StronglySorted (fun a b : range => fst a < fst b) (q_ranges q) /\
+                   strategy_run file (q_server q) (q_ranges q) (q_fetch q (q_ranges q))) qs ->
+  Forall2 (fun q o => query_spec file (q_server q) (q_ranges q) o) qs
+          (reader_session gen_fetch_site [] (map (fun q => (q_ranges q, q_fetch q)) qs)).
+Proof.
+  intros file qs H. rewrite session_direct, map_map. cbn [fst snd].
+  induction H as [|q t [Hso Hrun] Ht IH]; cbn; constructor; auto.
+  apply strategy_run_spec; auto.
+Qed.
+
+(* why a block cache in the reader must not be keyed by the start offset of a range: the byte range of a query is the run of
+   contiguous chunks behind that offset, so two queries can start ranges of different lengths at the same offset - the later
+   query is then answered from the shorter block.  Keyed by (offset, size), and without any cache (the source), it is right *)
+Theorem memo_by_offset_refuted :
+  let file := [1; 2; 3; 4] in
+  let honest := fun rs : list range => OReturned (local_read file rs) in
+  let qs := [([(0, 2)], honest); ([(0, 4)], honest)] in
+  reader_session (FsMemo true) [] qs = [OReturned [1; 2]; OReturned [1; 2]] /\
+  reader_session (FsMemo false) [] qs = [OReturned [1; 2]; OReturned [1; 2; 3; 4]] /\
+  reader_session gen_fetch_site [] qs = [OReturned [1; 2]; OReturned [1; 2; 3; 4]].
+Proof. vm_compute. repeat split; reflexivity. Qed.
